@@ -116,3 +116,92 @@ class FieldEffects:
             if cfg.must_pass(bs):
                 out.add(fld)
         return out
+
+
+RESET_CALLEES = re.compile(r"::(clear|reset|truncate)$")
+
+
+def _exact_field(place, adt_rx):
+    """If `place` is exactly <base>.field (field of ADT matching adt_rx is the last projection
+    element, only derefs before it), return the field name."""
+    proj = place[1:]
+    if not proj:
+        return None
+    last = proj[-1]
+    if isinstance(last, list) and last[0] == "f" and re.search(adt_rx, last[3]):
+        if all(e == "*" or e == "oc" for e in proj[:-1]):
+            return last[2] if last[2] else str(last[1])
+    return None
+
+
+def reset_writes(f, adt_rx):
+    """Whole-field overwrites: [(bb, field, kind, line)], kind in
+    assign (field = value), calldest (field = call()), reset-call (clear/reset/truncate(&mut field))."""
+    from .core import forward_aliases, op_place, callee_name
+    out = []
+    seeds = {}
+    for i, j, p, rv, line in assignments(f):
+        fld = _exact_field(p, adt_rx)
+        if fld is not None:
+            out.append((i, fld, "assign", line))
+        if len(p) == 1 and rv[0] == "ref" and rv[1] == "mut":
+            fld = _exact_field(rv[2], adt_rx)
+            if fld is not None:
+                seeds[p[0]] = fld
+    for i, c, args, dest, tgt, line in calls(f):
+        if dest is not None:
+            fld = _exact_field(dest, adt_rx)
+            if fld is not None:
+                out.append((i, fld, "calldest", line))
+    if seeds:
+        for s, fld in seeds.items():
+            al = forward_aliases(f, {s})
+            for i, c, args, dest, tgt, line in calls(f):
+                if args and RESET_CALLEES.search(callee_name(c)):
+                    p = op_place(args[0])
+                    if p is not None and p[0] in al and all(e == "*" for e in p[1:]):
+                        out.append((i, fld, "reset-call:" + callee_name(c).rsplit("::", 1)[-1], line))
+    return out
+
+
+class ResetCoverage:
+    """must-reset analysis for an init function over the fields of one ADT."""
+
+    def __init__(self, fe):
+        self.fe = fe          # FieldEffects
+        self.cg = fe.cg
+        self._direct = {}
+
+    def direct(self, n):
+        if n not in self._direct:
+            self._direct[n] = reset_writes(self.cg.fns[n], self.fe.adt_rx)
+        return self._direct[n]
+
+    def may_reset(self, n, stack=()):
+        if n in stack:
+            return set()
+        s = {fld for (_, fld, _, _) in self.direct(n)}
+        for bb, t in self.fe._handle_callees(n):
+            s |= self.may_reset(t, stack + (n,))
+        return s
+
+    def must_reset(self, n):
+        """fields reset on every entry->ok path of n (calls to handle-taking callees count with
+        their may-reset set at the calling block)."""
+        from .summ import ok_sites
+        f = self.cg.fns[n]
+        cfg = CFG(f)
+        blocks = defaultdict(set)
+        for (bb, fld, kind, line) in self.direct(n):
+            blocks[fld].add(bb)
+        for bb, t in self.fe._handle_callees(n):
+            if bb is None:
+                continue
+            for fld in self.may_reset(t):
+                blocks[fld].add(bb)
+        oks = ok_sites(f, cfg)
+        out = {}
+        for fld, bs in blocks.items():
+            if cfg.must_pass(bs, 0, oks):
+                out[fld] = sorted(bs)
+        return out
